@@ -93,6 +93,8 @@ pub fn gen(seed: u64, thorough: bool) {
         println!("{}", line);
         let _ = i;
     }
+    // ---- (a2) units through the engine entry point, under setter histories
+    gen_units(&mut rng, &src, if thorough { 300 } else { 40 });
     // ---- (b) corrupted lines
     let ncorr = if thorough { 40000 } else { 2000 };
     let engine = src.bundled.clone();
